@@ -7,14 +7,14 @@ from harness.tlc import tla
 
 FRONTS = ['lp', 'socp', 'gcp', 'ro']
 OBJ = ['lin', 'abs', 'norm2', 'sumsqr', 'square', 'exp']
-KINDS = ['lin', 'abs', 'norm2', 'square', 'sumsqr', 'power3', 'exp']
+KINDS = ['lin', 'abs', 'norm2', 'square', 'sumsqr', 'power3', 'exp', 'softplus', 'pnorm25', 'newvar']
 
 
 def run(rep, tier, props):
     with tlc.Scratch() as sc:
         model = tlc.make_model('Incremental', sc, constants=dict(Fronts=tla(set(FRONTS)), ObjAtoms=tla(set(OBJ)), ConKinds=tla(set(KINDS)),
-                                                              MaxAdds=tla(2 if tier == 'quick' else 3)),
-                               invariants=['PersistentUntouched', 'Export'])
+                                                              MaxAdds=tla(2 if tier == 'quick' else 3), NewVarBehindAux=tla(True)),
+                               invariants=['PersistentUntouched', 'NoAliasing', 'Export'])
         res = tlc.run_tlc(model, sc, workers=4, coverage=True, timeout=900)
         tlc.require_ok(res, 'Incremental')
         rep.add_tlc('Incremental[4 fronts x objective atoms x <=%d added constraints, every placement of the solves]' % (2 if tier == 'quick' else 3), res)
@@ -58,7 +58,7 @@ def run(rep, tier, props):
         if inc['final'] is None and fr['final'] is None:
             continue
         stats['compared'] += 1
-        tol = 5e-4 if (c['obj'] not in ('lin', 'abs') or any(h['kind'] not in ('lin', 'abs', '') for h in c['hist'])) else 2e-6
+        tol = 5e-4 if (c['obj'] not in ('lin', 'abs') or any(h['kind'] not in ('lin', 'abs', 'newvar', '') for h in c['hist'])) else 2e-6
         if inc['final'] is None or fr['final'] is None or abs(inc['final'] - fr['final']) > 10 * tol * (1 + abs(fr['final'])):
             for pr in ('C09', 'C19'):
                 _emit(rep, dict(sig='%s:incremental-build:optimum-differs-from-fresh-build:%s' % (pr, tag), prop=pr,
